@@ -41,6 +41,13 @@ def purge_frame_battery(repo):
             sb.add_entry(td, 'tree', payload='dir')
             os.symlink(os.path.join(outside, 'd'),
                        os.path.join(td, 'files', 'tree', 'sub', 'inner'))
+            # an outside directory without u+w, linked from inside a payload
+            os.makedirs(os.path.join(outside, 'ro', 'keep'))
+            os.chmod(os.path.join(outside, 'ro'), 0o500)
+            os.symlink(os.path.join(outside, 'ro'),
+                       os.path.join(td, 'files', 'tree', 'sub', 'ro-link'))
+            os.symlink('../../../../../../outside/ro',
+                       os.path.join(td, 'files', 'tree', 'ro-rel'))
             sb.add_entry(td, 'plain')
             with open(os.path.join(td, 'directorysizes'), 'w') as f:
                 f.write('x')
@@ -420,6 +427,36 @@ def put_args_battery(repo):
                 if (run['exit'] == 0) == any_fail:
                     problems.append('%s: exit %r but failures expected=%s' % (
                         label, run['exit'], any_fail))
+    # a HOME that is not a valid regular expression, and an empty-string
+    # argument: every other argument is still handled and the exit status
+    # still tells the truth
+    for home_name in ('h (o[ld', 'h+.*'):
+        with Sandbox(repo) as sb:
+            work = _build_work(sb)
+            home = sb.path(home_name)
+            os.makedirs(home)
+            td = sb.path('T')
+            os.makedirs(td)
+            run = sb.run('trash-put', ['--trash-dir', td, '--', 'f', 'missing', 'empty'],
+                         cwd=work, env={'HOME': home, 'XDG_DATA_HOME': os.path.join(
+                             home, '.local', 'share')})
+            after = sb.snapshot()
+            label = 'trash-put f missing empty with HOME=%r' % home_name
+            if 'Traceback' in run['stderr']:
+                problems.append('%s: traceback %s' % (label, run['stderr'][-200:]))
+            for a in ('f', 'empty'):
+                if ('work/' + a) in after:
+                    problems.append('%s: %s not trashed' % (label, a))
+            if run['exit'] == 0:
+                problems.append('%s: exit 0 although "missing" failed' % label)
+    with Sandbox(repo) as sb:
+        work = _build_work(sb)
+        td = sb.path('T')
+        os.makedirs(td)
+        for args in (['', 'f'], ['']):
+            run = sb.run('trash-put', ['--trash-dir', td, '--'] + args, cwd=work)
+            if run['exit'] == 0:
+                problems.append("trash-put %r: exit 0 although '' cannot be trashed" % (args,))
     return {'confirmed': bool(problems), 'problems': problems[:12]}
 
 
